@@ -7,6 +7,7 @@ package main
 
 import (
 	"bufio"
+	"bytes"
 	"encoding/json"
 	"flag"
 	"fmt"
@@ -28,6 +29,7 @@ import (
 	"verif/internal/ev"
 	"verif/internal/explore"
 	"verif/internal/minichain"
+	"verif/ref/refaddr"
 	"verif/ref/refchain"
 	"verif/ref/refhash"
 	"verif/ref/refsig"
@@ -58,6 +60,40 @@ func signP2PK(tx *reftx.Tx, idx int, key byte) {
 	tx.In[idx].Script = append([]byte{byte(len(sig))}, sig...)
 }
 
+func p2wpkh(i byte) []byte {
+	return append([]byte{0x00, 0x14}, refaddr.Hash160(refsig.PubkeyFromPriv(privKey(i), true))...)
+}
+
+// signP2WPKH puts a BIP143 SIGHASH_ALL signature and the key into the input's witness.
+func signP2WPKH(tx *reftx.Tx, idx int, key byte, amount uint64) {
+	pub := refsig.PubkeyFromPriv(privKey(key), true)
+	code := append(append([]byte{0x76, 0xa9, 0x14}, refaddr.Hash160(pub)...), 0x88, 0xac)
+	d := refhash.BIP143(tx, code, amount, idx, 1)
+	r, s := refsig.ECDSASignRFC6979(privKey(key), d[:])
+	tx.In[idx].Witness = [][]byte{append(refsig.SerializeDER(r, s), 0x01), pub}
+}
+
+func verifyP2WPKH(tx *reftx.Tx, idx int, pk []byte, amount uint64, f refchain.Flags) bool {
+	in := &tx.In[idx]
+	if !f.Witness {
+		return len(in.Script) == 0
+	}
+	if len(in.Script) != 0 || len(in.Witness) != 2 {
+		return false
+	}
+	sig, pub := in.Witness[0], in.Witness[1]
+	if len(sig) < 9 || !bytes.Equal(refaddr.Hash160(pub), pk[2:]) || !refsig.IsStrictDER(sig) {
+		return false
+	}
+	r, sv, ok := refsig.ParseDERLax(sig[:len(sig)-1])
+	if !ok {
+		return false
+	}
+	code := append(append([]byte{0x76, 0xa9, 0x14}, pk[2:]...), 0x88, 0xac)
+	d := refhash.BIP143(tx, code, amount, idx, uint32(sig[len(sig)-1]))
+	return refsig.ECDSAVerify(pub, r, sv, d[:])
+}
+
 // verify: trivial scripts, plus P2PK judged with the reference digest and the
 // reference ECDSA verification.
 var verifyMemo = map[string]bool{}
@@ -71,6 +107,15 @@ func verify(tx *reftx.Tx, idx int, spent []refchain.Coin, f refchain.Flags) bool
 			return v
 		}
 		v := verifyP2PK(tx, idx, pk, f)
+		verifyMemo[mk] = v
+		return v
+	}
+	if len(pk) == 22 && pk[0] == 0x00 && pk[1] == 0x14 {
+		mk := fmt.Sprintf("w/%x/%d/%x/%d/%v", tx.Serialize(true), idx, pk, spent[idx].Value, f.Witness)
+		if v, ok := verifyMemo[mk]; ok {
+			return v
+		}
+		v := verifyP2WPKH(tx, idx, pk, spent[idx].Value, f)
 		verifyMemo[mk] = v
 		return v
 	}
@@ -108,6 +153,8 @@ func grind(t *reftx.Tx, first byte) *reftx.Tx {
 }
 
 const prefixLen = 106
+
+const vouchedLockTime = 777
 
 // ctl runs harness-side setup / teardown under the scheduler too (default decisions
 // only): every goroutine gocoin starts is then a controlled thread and has really
@@ -187,6 +234,13 @@ func buildPrefix0(compressed bool) *chainx.Prefix {
 			}
 			s.Txs = append(s.Txs, minichain.Spend([]OP{p.Cb[5]}, o))
 			s.Fees = 50e8 - 44e8
+			// four P2WPKH coins (keys 5..8) for transactions with several segwit-v0 inputs
+			q := minichain.Spend([]OP{p.Cb[6]}, []reftx.Out{{Value: 10e8, Script: p2wpkh(5)}, {Value: 10e8, Script: p2wpkh(6)}, {Value: 10e8, Script: p2wpkh(7)}, {Value: 10e8, Script: p2wpkh(8)}})
+			s.Txs = append(s.Txs, q)
+			s.Fees += 10e8
+			for i := 0; i < 4; i++ {
+				p.Named[fmt.Sprint("W", i+1)] = OP{Tx: q.TxID(), Vout: uint32(i)}
+			}
 		case 102, 103, 104:
 			// three funding transactions in the same bucket 0x42, 3 outputs each (+1 failing script)
 			m := minichain.Spend([]OP{p.Cb[h-101]}, []reftx.Out{o1(10e8), o1(10e8), o1(10e8), {Value: 10e8, Script: []byte{0x00}}})
@@ -254,6 +308,38 @@ func scenarios() []scen {
 			signP2PK(t2, 0, 3)
 			t3 := sp([]OP{{Tx: t2.TxID(), Vout: 0}, {Tx: t1.TxID(), Vout: 0}}, []reftx.Out{o1(17e8)})
 			return []*reftx.Block{blk(p, p.Tip, p.Height+1, 7, 0, t1, t2, t3)}
+		}},
+		{name: "S1-three-segwit-inputs-of-one-transaction", qb: 2, tb: 2, horizon: 4000, events: []string{"b0"}, expect: "b0=ok", blocks: func(p *chainx.Prefix) []*reftx.Block {
+			// one transaction, three P2WPKH inputs: its per-input script checks run concurrently and
+			// share the transaction's cached BIP143 mid-hashes; plus a second transaction with one
+			n := p.Named
+			t1 := sp([]OP{n["W1"], n["W2"], n["W3"]}, []reftx.Out{o1(29e8)})
+			for i := 0; i < 3; i++ {
+				signP2WPKH(t1, i, byte(5+i), 10e8)
+			}
+			t2 := sp([]OP{n["W4"], n["K1"]}, []reftx.Out{o1(19e8)})
+			signP2WPKH(t2, 0, 8, 10e8)
+			signP2PK(t2, 1, 1)
+			return []*reftx.Block{minichain.Build(minichain.Spec{Prev: p.Tip, Height: p.Height + 1, Tag: 8, Txs: []*reftx.Tx{t1, t2}, Fees: 2e8, CbValue: -1, Witness: true})}
+		}},
+		{name: "S1-pool-verified-tx-between-signed-tx-and-unknown-input", qb: 2, tb: 2, horizon: 4000, events: []string{"b0", "b1"}, expect: "b0=refused-connect,b1=ok", blocks: func(p *chainx.Prefix) []*reftx.Block {
+			// [coinbase, A with real signatures (script checks started), B vouched for by the memory pool
+			// (chain.TrustedTxChecker), C with an unknown input]: the block is refused while A's checks may
+			// still be running
+			n := p.Named
+			mk := func(bad bool) *reftx.Block {
+				a := sp([]OP{n["K1"], n["K2"]}, []reftx.Out{o1(8e8), o1(12e8)})
+				signP2PK(a, 0, 1)
+				signP2PK(a, 1, 2)
+				b := sp([]OP{n["F0.0"]}, []reftx.Out{o1(10e8)})
+				b.LockTime = vouchedLockTime
+				txs := []*reftx.Tx{a, b}
+				if bad {
+					txs = append(txs, sp([]OP{{Tx: [32]byte{7, 7, 7}, Vout: 0}}, []reftx.Out{o1(1)}))
+				}
+				return blk(p, p.Tip, p.Height+1, 9, 0, txs...)
+			}
+			return []*reftx.Block{mk(true), mk(false)}
 		}},
 		{name: "S1-bad-signature-among-valid", qb: 2, tb: 2, horizon: 4000, events: []string{"b0", "b1"}, expect: "b0=refused-connect,b1=ok", blocks: func(p *chainx.Prefix) []*reftx.Block {
 			n := p.Named
@@ -651,6 +737,8 @@ func main() {
 	minichain.Quiet()
 	utxo.UTXO_WRITING_TIME_TARGET = 0
 	_ = chain.AbortNow
+	// as the client does: transactions the memory pool has verified are not script-checked again
+	chain.TrustedTxChecker = func(tx *btc.Tx) bool { return tx.Lock_time == vouchedLockTime }
 	_ = btc.COIN
 	// The client routes UTXO records through its own allocator, where freed memory is
 	// recycled at once. With the Go heap a use-after-free would go unnoticed, so the
